@@ -80,12 +80,26 @@ theorem dismiss_leaving (a : ASt) (k d : Nat) (hd : a.delay = true) (h : a.st k 
     (dismiss a false k).st k = .leaving d a.epoch := by
   simp [dismiss, upd, disSt, h, hd]
 
-/-- `present` survives the end of an epoch; `leaving` does not -/
-theorem advance_present (a : ASt) (k d : Nat) (h : a.st k = .present d) : (specAdvance a).st k = .present d := by
-  simp [specAdvance, h]
+/-- the end of an epoch changes no key; the callback of the removal timer removes a `leaving` key
+whose epoch has ended and nothing else -/
+theorem advance_st (a : ASt) (k : Nat) : (specAdvance a).st k = a.st k := rfl
 
-theorem advance_leaving (a : ASt) (k d e : Nat) (h : a.st k = .leaving d e) : (specAdvance a).st k = .absent := by
-  simp [specAdvance, h]
+theorem expire_leaving (a : ASt) (k d e : Nat) (h : a.st k = .leaving d e) (he : e < a.epoch) :
+    (expire a k).st k = .absent := by
+  simp [expire, upd, expSt, h, he]
+
+theorem expire_early (a : ASt) (k d e : Nat) (h : a.st k = .leaving d e) (he : ¬ e < a.epoch) :
+    (expire a k).st k = .leaving d e := by
+  simp [expire, upd, expSt, h, he]
+
+theorem expire_present (a : ASt) (k k' d : Nat) (h : a.st k = .present d) : (expire a k').st k = .present d := by
+  simp only [expire, upd]
+  split
+  · rename_i hk; subst hk; simp [expSt, h]
+  · exact h
+
+theorem expire_other (a : ASt) (k k' : Nat) (h : k ≠ k') : (expire a k').st k = a.st k := by
+  simp [expire, upd, h]
 
 /-! ## references -/
 
@@ -189,10 +203,12 @@ theorem rcOk_specStep (a : ASt) (f : Nat → Bool) (op : Op) (h : RcOk a) (hop :
       simp [hkk] at hk1
       exact h k hk1
 
-theorem rcOk_advance (a : ASt) (h : RcOk a) : RcOk (specAdvance a) := by
+theorem rcOk_advance (a : ASt) (h : RcOk a) : RcOk (specAdvance a) := h
+
+theorem rcOk_expire (a : ASt) (k' : Nat) (h : RcOk a) : RcOk (expire a k') := by
   intro k hk
   obtain ⟨d, hd⟩ := h k hk
-  exact ⟨d, advance_present a k d hd⟩
+  exact ⟨d, expire_present a k k' d hd⟩
 
 /-- releasing a reference twice counts once: the second `Release` changes nothing -/
 theorem release_twice (a : ASt) (f f' : Nat → Bool) (r : Nat) :
